@@ -66,9 +66,9 @@ set_option hygiene false in
 macro "tokjob" : tactic =>
   `(tactic| (
       obtain ⟨x1, x2, x3, x4, x4', x5, x6, x7, x8⟩ := ht.jobs j hj
-      obtain ⟨h0, hn0, hn1, hn2, h1, h2, h3, h4, h5, h6, h7, h8, h9, h10, hrec, h11, h12, h13, h14⟩ := hso
+      obtain ⟨h0, hn0, hn1, hn2, h1, h2, h3, h4, h5, h6, h7, h8, h9, h10, hrec, hnf, hrd, h11, h12, h13, h14⟩ := hso
       generalize s.job j = b at *
-      obtain ⟨kind, pc, payload, snap, inputs, trivial, todoIn, out, edit, csnap, newVer, prev, prevZero, dlist, live, todoDel⟩ := b
+      obtain ⟨kind, pc, payload, snap, inputs, trivial, todoIn, out, edit, csnap, newVer, prev, prevZero, nfRead, dlist, live, todoDel⟩ := b
       simp only at hpc
       subst hpc
       constructor <;>
@@ -181,7 +181,7 @@ theorem tok_jstep {cfg : Cfg} {s s' : St} {j : Nat} (hm : MergerOk cfg.merge) (h
     · refine jobTok_congr (s := s) rfl rfl rfl rfl ?_
       obtain ⟨x1, x2, x3, x4, x4', x5, x6, x7, x8⟩ := ht.jobs j hj
       generalize s.job j = b at *
-      obtain ⟨kind, pc, payload, snap, inputs, trivial, todoIn, out, edit, csnap, newVer, prev, prevZero, dlist, live, todoDel⟩ := b
+      obtain ⟨kind, pc, payload, snap, inputs, trivial, todoIn, out, edit, csnap, newVer, prev, prevZero, nfRead, dlist, live, todoDel⟩ := b
       simp only at hpc
       subst hpc
       cases kind <;>
@@ -195,8 +195,11 @@ theorem tok_jstep {cfg : Cfg} {s s' : St} {j : Nat} (hm : MergerOk cfg.merge) (h
       exact tok_pcMove .ready .cUnlocked hs ht hj hpc (by decide) (by decide) (by decide) (by decide) (by decide) (by decide)
     · split at hst
       · cases hst
-        exact tok_frame (tok_pcMove .ready .cLocked hs ht hj hpc (by decide) (by decide) (by decide) (by decide) (by decide) (by decide))
-          rfl rfl rfl rfl (Nat.le_refl _) rfl rfl rfl
+        have h1 : TokInv cfg (s.setJob j { s.job j with nfRead := s.nextFile, pc := .cLocked }) := by
+          apply tok_setJob ht
+          · tokjob
+          · intro a _; exact ⟨a, by rw [hpc]; rfl⟩
+        exact tok_frame h1 rfl rfl rfl rfl (Nat.le_refl _) rfl rfl rfl
       · cases hst
   case h_7 hpc => exact absurd hpc hso.notCloned
   case h_8 hpc => cases hst; exact tok_jSnap hs ht hj hpc
@@ -354,9 +357,9 @@ theorem tok_step {cfg : Cfg} {s s' : St} {a : Act} (hm : MergerOk cfg.merge) (hc
     · cases hst
 
 theorem tok_reachable {cfg : Cfg} {v0 f0 : Nat} {s : St} (hm : MergerOk cfg.merge) (hr : cfg.recheck = true)
-    (hcl : cfg.cloneLocked = true) (h : Reachable cfg v0 f0 s) : TokInv cfg s := by
+    (hcl : cfg.cloneLocked = true) (hal : cfg.allocLocked = true) (h : Reachable cfg v0 f0 s) : TokInv cfg s := by
   induction h with
   | init => exact tok_init cfg v0 f0
-  | step a hreach hst ih => exact tok_step hm hcl (safe_reachable hr hcl hreach) ih hst
+  | step a hreach hst ih => exact tok_step hm hcl (safe_reachable hr hcl hal hreach) ih hst
 
 end LinVerif.Lemmas.C02
